@@ -333,6 +333,9 @@ func genDoc(r *hx.Rng, sz sizeCase, repeat bool) ldoc {
 						if r.Chance(1, 6) {
 							c = g.word("t") + "\n" + g.word("t")
 						}
+						if g.n%6 == 0 {
+							c = "|" + c + "|q" // pipes: escaped by Table.ToMarkdown
+						}
 						if r.Chance(1, 10) {
 							c = ""
 						}
